@@ -89,14 +89,16 @@ Arguments CB {St}. Arguments cb_in {St}. Arguments cb_call {St}. Arguments cb_ou
 Record dstate : Type := DS {
   connected : bool;          (* SocketDriver.connected *)
   outq : list str;           (* Irc.fastqueue, PONG payloads only *)
+  outbuf : list str;         (* SocketDriver.outbuffer: PONG payloads taken from Irc but not yet written *)
   sent : list str;           (* PONG payloads handed to conn.send, oldest first *)
   nfed : N;                  (* number of feedMsg calls so far *)
   fedl : list str }.         (* the lines given to feedMsg, newest first *)
 
-Definition set_conn (c : bool) (d : dstate) := DS c (outq d) (sent d) (nfed d) (fedl d).
-Definition set_outq (q : list str) (d : dstate) := DS (connected d) q (sent d) (nfed d) (fedl d).
-Definition set_sent (q : list str) (d : dstate) := DS (connected d) (outq d) q (nfed d) (fedl d).
-Definition note_fed (l : str) (d : dstate) := DS (connected d) (outq d) (sent d) (nfed d + 1) (l :: fedl d).
+Definition set_conn (c : bool) (d : dstate) := DS c (outq d) (outbuf d) (sent d) (nfed d) (fedl d).
+Definition set_outq (q : list str) (d : dstate) := DS (connected d) q (outbuf d) (sent d) (nfed d) (fedl d).
+Definition set_outbuf (q : list str) (d : dstate) := DS (connected d) (outq d) q (sent d) (nfed d) (fedl d).
+Definition set_sent (q : list str) (d : dstate) := DS (connected d) (outq d) (outbuf d) q (nfed d) (fedl d).
+Definition note_fed (l : str) (d : dstate) := DS (connected d) (outq d) (outbuf d) (sent d) (nfed d + 1) (l :: fedl d).
 
 (* driver.reconnect() as far as this model goes: the connection is dropped *)
 Definition apply_reconn (r : bool) (d : dstate) : dstate := if r then set_conn false d else d.
@@ -110,6 +112,10 @@ Definition is_ping (c : str) : bool :=
   end.
 
 Definition LFb : N := 10.
+
+(* str.encode() (utf-8, strict) succeeds: no surrogate code point U+D800..U+DFFF *)
+Definition enc_char (c : N) : bool := N.ltb c 55296 || N.ltb 57343 c.
+Definition encodable (s : str) : bool := forallb enc_char s.
 Definition is_nil {A} (l : list A) : bool := match l with [] => true | _ => false end.
 
 (* inbuffer.split(b'\n'); inbuffer = lines.pop() *)
@@ -265,13 +271,19 @@ Fixpoint take_all (fuel : nat) (acc : list str) (p : pstate) : pstate * list str
       end
   end.
 
-(* SocketDriver._sendIfMsgs with a conn.send that accepts everything *)
+(* SocketDriver._sendIfMsgs with a conn.send that accepts everything:
+     self.outbuffer += ''.join(map(str, msgs)); sent = self.conn.send(self.outbuffer.encode())
+   encode() is outside every try: a lone surrogate raises UnicodeEncodeError and the outbuffer stays *)
 Definition send_if_msgs (p : pstate) : pstate * option xc :=
   if connected (fst p) then
     let '(p', acc, x) := take_all (S (length (outq (fst p)))) [] p in
     match x with
     | Some e => (p', Some e)
-    | None => ((set_sent (sent (fst p') ++ acc) (fst p'), snd p'), None)
+    | None =>
+        let ob := outbuf (fst p') ++ acc in
+        if forallb encodable ob
+        then ((set_sent (sent (fst p') ++ ob) (set_outbuf [] (fst p')), snd p'), None)
+        else ((set_outbuf ob (fst p'), snd p'), Some (XE UnicodeError))
     end
   else (p, None).
 
@@ -349,9 +361,16 @@ Definition drivers_run (ms : mstate) (rv : recv) : mstate :=
 
 Definition run_reads (rvs : list recv) (ms : mstate) : mstate := fold_left drivers_run rvs ms.
 
-(* ---- the domain of the survival theorem: every complete line of the stream is blank or parses ---- *)
+(* ---- the domain of the survival theorem: every complete line of the stream is blank or parses,
+   and what it makes the bot echo can be encoded ---- *)
+(* what the bot echoes for this message is encodable: the PONG payload of a PING that doPing accepts *)
+Definition echo_ok (m : msg) : bool :=
+  if is_ping (m_command m) then
+    match m_args m with a :: _ => negb (valid_arg a) || encodable a | [] => true end
+  else true.
+
 Definition line_ok (l : bytes) : bool :=
-  match parse_msg (decode l) with Ok _ => true | Raise _ => false end.
+  match parse_msg (decode l) with Ok None => true | Ok (Some m) => echo_ok m | Raise _ => false end.
 
 (* ... and conn.recv raises nothing but what _read's except clauses name *)
 Fixpoint dom (rvs : list recv) (buf : bytes) : bool :=
@@ -376,7 +395,7 @@ End Flow.
 
 Arguments MS {St}. Arguments m_buf {St}. Arguments m_p {St}. Arguments alive {St}. Arguments crashed {St}. Arguments escapes {St}.
 
-Definition ds0 : dstate := DS true [] [] 0 [].
+Definition ds0 : dstate := DS true [] [] [] 0 [].
 Definition init {St} (s : St) : mstate St := MS [] (ds0, s) true false [].
 
 (* ================= concrete instance for the extracted binary ================= *)
@@ -453,7 +472,7 @@ Definition vX (x : option xc) : value := vN (code_of_xc x).
 (* run: (op payload)
    op 0: payload = (chunks decode_table valid_times dispatch_rows addmsg_rows callbacks)
          -> (alive crashed (escape codes, oldest first) (PONG payloads sent) (plugin log, oldest first)
-             (lines fed, oldest first) connected inbuf)
+             (lines fed, oldest first) connected inbuf (PONG payloads stuck in outbuffer))
    op 1: payload = (chunks decode_table valid_times) -> dom
    op 2: same payload -> codes of the exceptions parseMsg raises *)
 Definition run (v : value) : value :=
@@ -467,7 +486,7 @@ Definition run (v : value) : value :=
                           (c_cbs 0 (gL (nth_v 5 pl))) rvs (init []) in
       let d := fst (m_p ms) in
       L [vB (alive ms); vB (crashed ms); L (map vX (rev (escapes ms))); vLS (sent d);
-         L (map (fun e => L (map vN e)) (rev (snd (m_p ms)))); vLS (rev (fedl d)); vB (connected d); vS (m_buf ms)]
+         L (map (fun e => L (map vN e)) (rev (snd (m_p ms)))); vLS (rev (fedl d)); vB (connected d); vS (m_buf ms); vLS (outbuf d)]
   | 1 => vB (dom vt dec rvs [])
   | 2 => L (map (fun e => I (exn_code e)) (parse_excs vt dec rvs []))
   | _ => L []
